@@ -22,7 +22,8 @@ TBInit == l = 1 /\ bad = "" /\ TLCSet(42, <<>>)
 Skipping == bad # "" /\ Ev.k # "reset"
 
 \* verdicts carried by the event itself (the harness compared a value with what the real code returned)
-EvBad == IF Ev.k \in {"ret", "final"} /\ "bij" \in DOMAIN Ev.x /\ ~Ev.x.bij THEN "InvBijection" ELSE ""
+EvBad == IF Ev.k \in {"ret", "final"} /\ "bij" \in DOMAIN Ev.x /\ ~Ev.x.bij THEN "InvBijection"
+         ELSE IF Ev.k = "panic" THEN "NoPanic" ELSE ""
 Worst(a, b) == IF a # "" THEN a ELSE b
 IsNopCall == Ev.k = "call" /\ Ev.x.op = "nop"
 IsNopRet  == Ev.k = "ret" /\ Ev.fn = "nop"
